@@ -381,6 +381,19 @@ func runAll(c *run.Ctx) {
 			}
 		}
 	}
+	// counts that need the third byte of the 32-bit count field (>= 2^16), in every byte-order assignment
+	bidx := 0
+	for _, bn := range []int{65535, 65536, 65537, 70001, 131072 + 5} {
+		for _, kind := range []int{0, 1, 2, 4, 5} {
+			bidx++
+			bn, kind := bn, kind
+			ct := model.CTypes[bidx%4]
+			c.Case("counts64k", bidx, func(k *run.K) {
+				k.Count("counts_at_or_above_65536", 1)
+				checkTree(k, model.SizedTree(kind, bn, ct), kind == 0 || kind == 2)
+			})
+		}
+	}
 	// member / ring counts around powers of two (allocation caps): every member must come back
 	cidx := 0
 	for _, cn := range []int{255, 256, 257, 1023, 1024, 1025, 2049, 4097} {
